@@ -73,6 +73,12 @@ impl ChessMove {
             ChessMove::EnPassant(m) => m.apply(board),
             ChessMove::Castle(m) => m.apply(board),
         };
+        #[cfg(chess_verif)]
+        crate::verif_hooks::on_board_state(
+            board,
+            crate::verif_hooks::BOARD_EVENT_APPLIED,
+            result.is_ok(),
+        );
 
         map_ok(result)
     }
@@ -84,6 +90,12 @@ impl ChessMove {
             ChessMove::EnPassant(m) => m.undo(board),
             ChessMove::Castle(m) => m.undo(board),
         };
+        #[cfg(chess_verif)]
+        crate::verif_hooks::on_board_state(
+            board,
+            crate::verif_hooks::BOARD_EVENT_UNDONE,
+            result.is_ok(),
+        );
 
         map_ok(result)
     }
